@@ -789,6 +789,11 @@ class Module(HasAccessibles):
             break
         if started_callback:
             started_callback()
+        for mobj in modules:
+            # when a communication failure has ended the startup sequence above, the configured
+            # values of the modules behind the failing one are not yet written: do it before
+            # these modules are polled (no effect on modules with nothing left to write)
+            mobj.writeInitParams()
         if not polled_modules:  # no polls needed - exit thread
             return
         to_poll = ()
